@@ -241,6 +241,19 @@ func genCase(t *rapid.T) tcase {
 					node.Name.Space = "urn:verif:x"
 				}
 			}
+			if rapid.IntRange(0, 11).Draw(t, "framingNS") == 0 {
+				// elements of the WebSocket framing namespace are nothing special on
+				// a TCP stream: a quoted <open/> or <close/> inside a payload, or an
+				// element of that namespace at top level, is content like any other
+				fr := xt.El(wire.WSNS, rapid.SampledFrom([]string{"open", "close", "other"}).Draw(t, "framingLocal"), nil)
+				if rapid.Bool().Draw(t, "framingNested") || stanza.Is(node.Name, ns) {
+					node.Children = append(node.Children, fr)
+				} else {
+					fr.Children = node.Children
+					fr.Attr = node.Attr
+					node = fr
+				}
+			}
 			it.node = node
 			if rapid.IntRange(0, 4).Draw(t, "nestbad") == 0 {
 				it.bad = genConstruct(t, true)
